@@ -151,7 +151,7 @@ def f16_non_ascii_zone(rec, args):
     return (not zone.isascii()) and rest.isascii()
 
 
-_F7A_FIELDS = {"authority", "raw_host", "host", "host_subcomponent", "host_port_subcomponent", "human_repr"}
+_F7A_FIELDS = {"authority", "raw_host", "host", "host_subcomponent", "host_port_subcomponent", "human_repr", "origin"}
 
 
 def _diff_map(rec):
@@ -203,3 +203,19 @@ def f20_bracket_garbage_eager_lazy(rec, args):
     if a[0] != "ok" or not isinstance(a[1], str) or ":" not in a[1]:
         return False
     return hostref.classify(a[1]) in (None, "ipvfuture")
+
+
+@predicate
+def f21_root_popped_by_surplus_dotdot(rec, args):
+    """'/' or joinpath under an authority, the argument climbs above the root ('..' segments) and an empty segment follows:
+    the result is the RFC result minus exactly one leading empty segment."""
+    if rec.get("case") not in ("truediv", "joinpath") or not args or args[0] is not True:
+        return False
+    segs = list(args[1]) if len(args) > 1 else []
+    canon = [s.replace("%2E", ".").replace("%2e", ".") for s in segs]
+    if ".." not in canon or "" not in canon[canon.index(".."):]:
+        return False
+    obs = rec.get("observed") or {}
+    got = obs.get("raw_path") if isinstance(obs, dict) else None
+    exp = rec.get("expected")
+    return isinstance(got, str) and isinstance(exp, str) and exp.startswith("//") and got == exp[1:]
